@@ -245,5 +245,111 @@ theorem positionFinder_rowspace (m0 m0' : XZ) (hn : 0 < m0.n) (hnn : m0'.n = m0.
     obtain ⟨k, hk, ek⟩ := (ech_lead_iff m1' r' piv' he' q (by rw [n1']; exact hq)).mp this
     exact hnp k hk ek
 
+/-! ### the graph and the `P_dag` positions depend only on the row space -/
+
+theorem graphFinderTail_shape (m2 : XZ) (xinv : Adj) (hpos : List Nat) (rank : Int) (g : GraphFinderOut)
+    (e : graphFinderTail m2 xinv hpos rank = .ok g) :
+    (∃ f, g.adj = (BMat.ofAdj m2.n f).norm) ∧ g.zdiag.Pairwise (· < ·) := by
+  unfold graphFinderTail at e
+  simp only at e
+  split at e
+  · cases e
+  · split at e
+    · cases e
+    · injection e with e
+      rw [← e]
+      exact ⟨⟨_, rfl⟩, List.Pairwise.filter _ List.pairwise_lt_range⟩
+
+theorem graphFinderWith_shape (inv : Nat → Adj → Option Adj) (m0 : XZ) (g : GraphFinderOut)
+    (e : graphFinderWith inv m0 = .ok g) : (∃ f, g.adj = (BMat.ofAdj m0.n f).norm) ∧ g.zdiag.Pairwise (· < ·) := by
+  unfold graphFinderWith at e
+  split at e
+  · cases e
+  · next hn =>
+    have hred := bequiv_rowReduction m0.norm (Nat.pos_of_ne_zero hn)
+    generalize m0.norm.rowReduction = rr at e hred
+    obtain ⟨m1, rank0⟩ := rr
+    simp only at e hred
+    split at e
+    · cases e
+    · have := graphFinderTail_shape _ _ _ _ g e
+      have hn2 : ((m1.hadamardTransform (positionFinder m0.n m1.x)).norm).n = m0.n := hred.2
+      rw [hn2] at this
+      exact this
+
+/-- **`_graph_finder` depends only on the row space of `[X | Z]`** (for every pair of candidate inverses): two inputs with the same row
+    space get the same graph, Hadamard positions and `P_dag` positions -/
+theorem graphFinderWith_rowspace (inv inv' : Nat → Adj → Option Adj) (m0 m0' : XZ) (hnn : m0'.n = m0.n)
+    (h1 : ∀ i, i < m0.n → BSpan m0.n m0.n m0.x m0.z (m0'.x i) (m0'.z i))
+    (h2 : ∀ i, i < m0.n → BSpan m0.n m0.n m0'.x m0'.z (m0.x i) (m0.z i))
+    (g g' : GraphFinderOut) (e : graphFinderWith inv m0 = .ok g) (e' : graphFinderWith inv' m0' = .ok g') :
+    g.adj = g'.adj ∧ g.hpos = g'.hpos ∧ g.zdiag = g'.zdiag := by
+  have spec := graphFinderWith_spec inv m0 g e
+  have spec' := graphFinderWith_spec inv' m0' g' e'
+  have hn := spec.n_pos
+  have hpos : g.hpos = g'.hpos := by
+    rw [graphFinderWith_hpos inv m0 g e, graphFinderWith_hpos inv' m0' g' e']
+    exact positionFinder_rowspace m0 m0' hn hnn h1 h2
+  -- the matrix `C` with `z' = x'·C` is determined by the row space
+  have hK : ∀ j j', j < m0.n → j' < m0.n →
+      xor (g.adj.f j j') (decide (j = j') && g.zdiag.contains j') = xor (g'.adj.f j j') (decide (j = j') && g'.zdiag.contains j') := by
+    intro j j' hj hj'
+    obtain ⟨a, b, hab', hu⟩ := spec'.full j (by rw [hnn]; exact hj)
+    rw [hnn] at hab' hu
+    have hab : BSpan m0.n m0.n m0.x m0.z a b := BSpan.mono h1 hab'
+    have r1 := BSpan.sat (rowEq_linear m0.n g.hpos _) spec.rows hab j' hj'
+    have rows' := spec'.rows
+    rw [hnn] at rows'
+    have r2 := BSpan.sat (rowEq_linear m0.n g'.hpos _) rows' hab' j' hj'
+    rw [hpos] at r1
+    rw [r1] at r2
+    rw [parityTo_congr m0.n _ (fun k => decide (k = j) && xor (g.adj.f k j') (decide (k = j') && g.zdiag.contains j'))
+        (fun k hk => by rw [hu k hk]),
+      parityTo_single m0.n j _ hj,
+      parityTo_congr m0.n _ (fun k => decide (k = j) && xor (g'.adj.f k j') (decide (k = j') && g'.zdiag.contains j'))
+        (fun k hk => by rw [hu k hk]),
+      parityTo_single m0.n j _ hj] at r2
+    exact r2
+  have irr' : ∀ i, i < m0.n → g'.adj.f i i = false := fun i hi => spec'.irrefl i (by rw [hnn]; exact hi)
+  have hadj : ∀ i j, i < m0.n → j < m0.n → g.adj.f i j = g'.adj.f i j := by
+    intro i j hi hj
+    by_cases hij : i = j
+    · subst hij; rw [spec.irrefl i hi, irr' i hi]
+    · have := hK i j hi hj
+      simpa [hij] using this
+  have hzd : g.zdiag = g'.zdiag := by
+    apply sorted_ext _ _ (graphFinderWith_shape inv m0 g e).2 (graphFinderWith_shape inv' m0' g' e').2
+    intro q
+    have key : ∀ q, q < m0.n → g.zdiag.contains q = g'.zdiag.contains q := by
+      intro q hq
+      have := hK q q hq hq
+      rw [spec.irrefl q hq, irr' q hq] at this
+      simpa using this
+    constructor
+    · intro h
+      have hq := spec.zdiag_lt q h
+      have : g'.zdiag.contains q = true := by rw [← key q hq]; exact List.contains_iff_mem.mpr h
+      exact List.contains_iff_mem.mp this
+    · intro h
+      have hq : q < m0.n := by have := spec'.zdiag_lt q h; omega
+      have : g.zdiag.contains q = true := by rw [key q hq]; exact List.contains_iff_mem.mpr h
+      exact List.contains_iff_mem.mp this
+  refine ⟨?_, hpos, hzd⟩
+  obtain ⟨f, ef⟩ := (graphFinderWith_shape inv m0 g e).1
+  obtain ⟨f', ef'⟩ := (graphFinderWith_shape inv' m0' g' e').1
+  rw [hnn] at ef'
+  rw [ef, ef']
+  refine BMat.norm_congr (BMat.ofAdj m0.n f) (BMat.ofAdj m0.n f') rfl rfl ?_
+  intro i j hi hj
+  have a1 := BMat.norm_agree (BMat.ofAdj m0.n f) i j hi hj
+  have a2 := BMat.norm_agree (BMat.ofAdj m0.n f') i j hi hj
+  rw [← ef] at a1
+  rw [← ef'] at a2
+  show f i j = f' i j
+  have a1' : g.adj.f i j = f i j := a1
+  have a2' : g'.adj.f i j = f' i j := a2
+  rw [← a1', ← a2']
+  exact hadj i j hi hj
+
 end S2G
 end Graphiq
